@@ -61,7 +61,7 @@ theorem for_me_refines (me : String) (rs : List (List (Option String))) :
         (match evalBlock Sp.pyStrip noExt 64 envI for_me.body with
          | .normal _ => .value .none
          | .ret v => .value v
-         | .raise c => .raised c
+         | .raise c _ => .raised c
          | .brk _ => .stuck "break outside a loop"
          | .cont _ => .stuck "continue outside a loop"
          | .stuck w => .stuck w) := by
